@@ -445,6 +445,7 @@ func run(c *enum.Ctx) {
 	}
 	n := 0
 	do := func(k kase) {
+		c.Doing(0, k)
 		c.Eval()
 		n++
 		if check(c, k) {
@@ -504,6 +505,7 @@ func run(c *enum.Ctx) {
 				for oi := range opDefs {
 					nh := append(append([]int{}, h...), oi)
 					k := kase{Kind: "history", Ops: nh, Spare: spare, Coding: coding}
+					c.Doing(0, k)
 					c.Eval()
 					c.Nontrivial(enum.J(k))
 					key, t := historyCase(c, k)
